@@ -28,8 +28,23 @@ rm -f "$pkgdir/$(basename $demo)"
 touched=$(git diff --name-only | xargs -n1 dirname | sort -u | grep -v '^\.$' )
 r3=0
 for p in $touched; do
-  echo "== existing tests with patch: ./$p" >> "$log"
-  go test -mod=mod -vet=off -count=1 -timeout 40m ./$p 2>&1 | tail -5 >> "$log"; [ ${PIPESTATUS[0]} -ne 0 ] && r3=1
+  echo "== existing tests with patch: ./$p (compared with the pinned stable_pass list)" >> "$log"
+  go test -mod=mod -vet=off -count=1 -timeout 40m -json ./$p > /tmp/seedchk/${prop}_m$n.$(echo $p|tr / _).json 2>&1
+  python3 - "$p" /tmp/seedchk/${prop}_m$n.$(echo $p|tr / _).json >> "$log" <<'PY' || r3=1
+import json,sys
+pkg='github.com/couchbase/sync_gateway/'+sys.argv[1]
+stable=set(x for x in json.load(open('/root/.vp/BASELINE.json'))['stable_pass'] if x.startswith(pkg+'::'))
+res={}
+for l in open(sys.argv[2]):
+    try: e=json.loads(l)
+    except Exception: continue
+    if e.get('Test') and e.get('Action') in ('pass','fail','skip') and e.get('Package')==pkg:
+        res[pkg+'::'+e['Test']]=e['Action']
+bad=[t for t in stable if res.get(t)!='pass']
+other=[t for t,a in res.items() if a=='fail' and t not in stable]
+print(f"stable tests: {len(stable)}, not passing with patch: {len(bad)} {bad[:10]}; failing but not in stable list (pre-existing/offline): {other[:10]}")
+sys.exit(1 if bad else 0)
+PY
 done
 cd / && git -C /repo worktree remove --force "$wt"
 python3 - "$dst" "$prop" "$n" "$r1" "$r2" "$r3" "$pkgdir" "$tests" "$touched" <<'PY'
